@@ -17,7 +17,8 @@ THEOREMS = ["C17_at_most_once", "C17_pairing", "C17_serials", "C17_serial_sequen
             "C17_close_completes_refuted", "C17_queued_reply_completes_once", "C17_timeout_completes_once", "C17_block_completes_once",
             "C17_elapsed_bounds", "C17_give_up_complete", "C17_give_up_sound_partial", "C17_give_up_exact",
             "C17_timeout_not_early_refuted_rounding", "C17_clock_backward_branch", "C17_monotonic_never_backward", "C17_no_early_timeout",
-            "C17_timed_block_is_run", "C17_timed_block_at_most_once", "C17_timeout_lifecycle"]
+            "C17_timed_block_is_run", "C17_timed_block_at_most_once", "C17_timeout_lifecycle",
+            "C17_no_lost_wakeup", "C17_io_path_exclusive", "C17_handover_completes", "C17_check_before_acquire_refuted"]
 
 MAXCALLS = 6
 FAULT_REPLAYS = 12
@@ -29,7 +30,7 @@ FAULT_REPLAYS = 12
 def settle(events):
     """Append the suffix that lets everything that can still complete do so: read, drain, steal all."""
     ns = sum(1 for e in events if e.startswith("S,"))
-    nm = sum(1 for e in events if e.startswith("M,")) + sum(e.count(":") // 2 for e in events if e.startswith("BW,") or e.startswith("BT,"))
+    nm = sum(1 for e in events if e.startswith("M,")) + sum(e.count(":") // 2 for e in events if e.startswith("BW,") or e.startswith("BT,") or e.startswith("TT,"))
     return list(events) + ["R"] + ["D"] * min(nm + ns + 3, 24) + ["T,%d" % i for i in range(min(ns, 16))]
 
 
@@ -121,6 +122,39 @@ def gen_bw(rnd, count):
         ev.append("BW,%d,%s" % (i, "/".join(batches)))
         for _ in range(rnd.randint(0, 2)):
             ev.append(rnd.choice(("D", "R", "T,%d" % i, "B,%d" % i)))
+        out.append(ev)
+    return out
+
+
+def gen_tt(rnd, count):
+    """Two threads blocking on two calls of one connection (TT): thread A sleeps in poll() owning the I/O path, thread B waits
+    for the I/O path, the peer answers both calls (any order, any kind, with unrelated traffic and duplicates) in one write."""
+    out = []
+    for _ in range(count):
+        n = rnd.randint(2, 4)
+        ev = ["S,inf,%d" % rnd.randint(0, 1) for _ in range(n)]
+        tag = 0
+        pre = False
+        for _ in range(rnd.randint(0, 3)):
+            r = rnd.random(); tag += 1
+            if r < 0.4: ev.append("M,s,%s,%d" % (rnd.choice(("#0", "#99")), tag)); pre = True
+            elif r < 0.6: ev.append("P")
+            elif r < 0.8: ev.append("D")
+            else: ev.append("R")
+        if pre: ev.append("R")
+        a, b = rnd.sample(range(n), 2)
+        items = []
+        for c in (a, b):
+            tag += 1
+            items.append("%s:c%d:%d" % (rnd.choice("rrres"), c, tag))
+        for _ in range(rnd.randint(0, 2)):
+            tag += 1
+            others = [j for j in range(n) if j not in (a, b)]
+            items.append(rnd.choice(["s:#0:%d" % tag, "r:#99:%d" % tag] + ["r:c%d:%d" % (j, tag) for j in others] + ["e:c%d:%d" % (rnd.choice((a, b)), tag)]))
+        rnd.shuffle(items)
+        ev.append("TT,%d,%d,%s" % (a, b, "+".join(items)))
+        for _ in range(rnd.randint(0, 2)):
+            ev.append(rnd.choice(("D", "R", "T,%d" % a, "T,%d" % b)))
         out.append(ev)
     return out
 
@@ -233,7 +267,7 @@ def gen_boundary():
 # --------------------------------------------------------------------------
 # trace parsing and the specification oracle
 # --------------------------------------------------------------------------
-OBS_RE = re.compile(r"q(-?\d+)|i(-|\d+)|n(\d+)|f(N|Z|X\d+|[res]\d+\.\d+)|d([012])|t(-|0|N\d+|X\d+|[res]\d+\.\d+)|s(-|\d+)|p(\d+)|(w-?)|(F-?)|(!\w+)")
+OBS_RE = re.compile(r"A\[|\]B\[|\]|TT-|q(-?\d+)|i(-|\d+)|n(\d+)|f(N|Z|X\d+|[res]\d+\.\d+)|d([012])|t(-|0|N\d+|X\d+|[res]\d+\.\d+)|s(-|\d+)|p(\d+)|(w-?)|(F-?)|(!\w+)")
 
 
 def parse_trace(line):
@@ -276,7 +310,11 @@ def oracle(events, line):
     for idx, (ev, (obs, st, disc)) in enumerate(zip(events, segs)):
         f = ev.split(",")
         for o in obs:
-            if o.startswith("!walltime"):
+            if o.startswith("!sleep"):
+                bad.append(("violation", "two threads blocking on one connection (event %d): a thread went to sleep in poll() although the reply "
+                            "to its call had already been read into the incoming queue by the other thread (lost wake-up at the I/O-path "
+                            "hand-over); without further traffic its call would never complete" % idx))
+            elif o.startswith("!walltime"):
                 bad.append(("violation", "the blocking wait at event %d read the wall clock (gettimeofday) instead of CLOCK_MONOTONIC: "
                             "a step of the system time would end or prolong the wait (regression of fix 09f2f87)" % idx))
             elif o.startswith("!"):
@@ -310,9 +348,9 @@ def oracle(events, line):
                 for c in calls:
                     if c["serial"] == rs and not c["completed"] and not c["cancelled"]:
                         c["delivered"] = True
-        elif f[0] in ("BW", "BT"):
+        elif f[0] in ("BW", "BT", "TT"):
             bi = int(f[1])
-            spec = f[2] if f[0] == "BW" else f[4]
+            spec = f[2] if f[0] == "BW" else f[4] if f[0] == "BT" else f[3]
             if f[0] == "BT" and bi < len(calls) and not calls[bi]["completed"]:
                 # has the timeout really expired at some reading of the scripted clock?
                 rd = [int(a) * 1000000 + int(b) for a, b in (x.split(".") for x in f[3].split("/"))]
@@ -370,7 +408,7 @@ def oracle(events, line):
             if comp and c["notify"] and nc != 1:
                 bad.append(("violation", "call %d completed but notify count is %d (event %d)" % (i, nc, idx)))
             if comp and not c["completed"] and c["cancelled"]:
-                cls = "cancel-block" if (f[0] in ("B", "BW", "BT") and int(f[1]) == i) else "violation"
+                cls = "cancel-block" if (f[0] in ("B", "BW", "BT") and int(f[1]) == i) or (f[0] == "TT" and i in (int(f[1]), int(f[2]))) else "violation"
                 bad.append((cls, "call %d was cancelled before it completed, yet event %d (%s) completed%s it" % (
                     i, idx, ev, " and notified" if nc else "")))
             if comp and treg:
@@ -454,6 +492,7 @@ def run(ctx):
             cases.append(("corpus", c["events"].split()))
     cases += [("boundary", e) for e in gen_boundary()]
     cases += [("blockwhile", e) for e in gen_bw(rnd, 250 if tier == "quick" else 4000)]
+    cases += [("twothreads", e) for e in gen_tt(rnd, 150 if tier == "quick" else 3000)]
     cases += [("clock", e) for e in gen_bt(rnd, 3000 if tier == "quick" else 60000)]
     cases += [("exhaustive", e) for e in gen_exhaustive(4 if tier == "quick" else 5)]
     cases += [("random", e) for e in gen_random(rnd, 12000 if tier == "quick" else 300000, 22)]
@@ -624,5 +663,8 @@ def run(ctx):
         "the counter function itself is tied by the generated table (PendingTie.v)",
         "BW schedules (block while the peer keeps writing) use a helper thread in the harness that writes pre-marshalled bytes every 15 ms and makes no "
         "libdbus call; only calls without timeout or with a 2 s timeout are waited for this way",
+        "TT schedules really run two threads (after dbus_threads_init_default) but are gated with semaphores through the interposed poll() and "
+        "pthread_cond_wait(), so the interleaving is fixed: A asleep in poll, B waiting for the I/O path, one write, A wakes; other interleavings "
+        "are covered by the theorems over the thread model only",
         "schedules that would block for ever (block on a call without timeout and without a reply) are not run",
     ]
